@@ -418,12 +418,12 @@ class C02(ProgCheck):
                 for k1 in ("var", "tmp"):
                     e1, s1, st1 = operand(v1, "x", k1)
                     n += 1
-                    cases.append(self.node_case("c%d" % n, "bity %s %s" % (f, st1), "%s(%s)" % (f, e1), s1, {"family": "builtin1", "st": [st1], "nomodelval": True}))
+                    cases.append(self.node_case("c%d" % n, "bityk %s 1 %s %s" % (f, st1, v1), "%s(%s)" % (f, e1), s1, {"family": "builtin1", "st": [st1], "vt": [sty(v1)], "nomodelval": True}))
                     for (t2, v2) in (VALS if not quick else VALS[:8]):
                         e2, s2, st2 = operand(v2, "y", "var")
                         n += 1
-                        cases.append(self.node_case("c%d" % n, "bity %s %s %s" % (f, st1, st2), "%s(%s, %s)" % (f, e1, e2), s1 + s2,
-                                                    {"family": "builtin2", "st": [st1, st2], "nomodelval": True}))
+                        cases.append(self.node_case("c%d" % n, "bityk %s 2 %s %s %s %s" % (f, st1, st2, v1, v2), "%s(%s, %s)" % (f, e1, e2), s1 + s2,
+                                                    {"family": "builtin2", "st": [st1, st2], "vt": [sty(v1), sty(v2)], "nomodelval": True}))
         # (b) batch vs statement-at-a-time
         for k in range(250 if quick else 4000):
             g = progen.Gen(self.rng, nvars=2, funcs=(k % 2 == 0), errors=0.03)
@@ -596,7 +596,10 @@ class C02(ProgCheck):
         if mr and not static.startswith("?"):
             rt = mr.group(1)
             if rt.split("{")[0].split("#")[0] != static.split("{")[0].split("#")[0]:
-                if fam == "binop":
+                if fam in ("builtin1", "builtin2"):
+                    d = self.stats.setdefault("bity_mismatch", {})
+                    d[c.model_line.split()[1]] = d.get(c.model_line.split()[1], 0) + 1
+                if fam in ("binop", "builtin1", "builtin2"):
                     # C02R3: the region of C02.static_vs_runtime.op.<OP> is exact — the driver names it (KF/C02.lean `c02OpGap`, a function
                     # of operator, static operand types, run-time operand types; Proofs/C02.lean static_eq_runtime_outside_kf_region)
                     kf = m.get("kf")
@@ -608,7 +611,8 @@ class C02(ProgCheck):
                 else:
                     return self.record_violation("`%s` (static operand types %s): compile-time type %s but the value has type %s%s" % (
                         c.meta["expr"], c.meta["st"], static, rt,
-                        " — outside the region of the recorded finding C02.static_vs_runtime.op.*" if fam == "binop" else ""), c, ev, m)
+                        " — outside the region of the recorded finding C02.static_vs_runtime.%s.*" % ("op" if fam == "binop" else "bity")
+                        if fam in ("binop", "builtin1", "builtin2") else ""), c, ev, m)
         # tie to the model: static type and (for operators) value
         if mout and mout.startswith("accept="):
             # bity: model gives acceptance + static type
@@ -748,6 +752,6 @@ class C02(ProgCheck):
         ml = (c.model_line or "").split()
         if len(ml) < 2:
             return None
-        fam = {"bity": "bi", "op": "op", "opk": "op", "un": "un"}.get(ml[0])
+        fam = {"bity": "bi", "bityk": "bi", "op": "op", "opk": "op", "un": "un"}.get(ml[0])
         kf = "C01.%s.%s.%s" % (fam, ml[1], crash_class(iraw))
         return kf if any(f["id"] == kf and f.get("status", "known") == "known" for f in load_findings()) else None
